@@ -16,6 +16,7 @@ class Model:
     """Independent statement of the container contract."""
     def __init__(self):
         self.names, self.parts, self.buf, self.raw = [], [], {}, []
+        self.order = []          # parts in the order they reach the file
 
     def register(self, name):
         if name in self.names:
@@ -24,7 +25,7 @@ class Model:
         return len(self.names) - 1
 
     def add(self, sid, data, meta):
-        self.parts[sid].append((data, meta))
+        self.parts[sid].append((data, meta)); self.order.append((sid, data, meta))
 
     def add_buffered(self, sid, data, meta):
         self.buf.setdefault(sid, []).append((data, meta))
@@ -32,8 +33,37 @@ class Model:
     def flush(self):
         for sid in sorted(self.buf):
             for d, m in self.buf[sid]:
-                self.parts[sid].append((d, m))
+                self.parts[sid].append((d, m)); self.order.append((sid, d, m))
         self.buf = {}
+
+
+def spec_varint(e, v):
+    """Format rule: [n][n bytes big-endian], n minimal (0 for the value 0)."""
+    if isinstance(v, int):
+        v = Int(64, 0, v)
+    n = 0
+    while n < 8 and not e.branch(e.binop("Lt", v, Int(64, 0, 1 << (8 * n)))):
+        n += 1
+    out = [Int(8, 0, n)]
+    for i in range(n - 1, -1, -1):
+        out.append(e.cast("IntToInt", e.binop("BitAnd", e.binop("Shr", v, Int(32, 0, 8 * i)), Int(64, 0, 0xFF)), "u8"))
+    return out
+
+
+def spec_file(e, model):
+    """Independent byte image of the container: parts (varint(metadata) + data) in commit order, directory, 8-byte LE length."""
+    body, offs = [], {}
+    for sid, d, m in model.order:
+        offs.setdefault(sid, []).append((len(body), len(d)))
+        body += spec_varint(e, m) + list(d)
+    foot = spec_varint(e, len(model.names))
+    for sid, nm in enumerate(model.names):
+        foot += [Int(8, 0, b) for b in nm] + [Int(8, 0, 0)]
+        foot += spec_varint(e, len(model.parts[sid])) + spec_varint(e, model.raw[sid])
+        for off, size in offs.get(sid, []):
+            foot += spec_varint(e, off) + spec_varint(e, size)
+    ln = len(foot)
+    return body + foot + [Int(8, 0, (ln >> (8 * i)) & 0xFF) for i in range(8)]
 
 
 def unwrap_ok(e, r, role, what):
@@ -106,6 +136,10 @@ class Ops(Instance):
             e.witness("buffered_flush")
         unwrap_ok(e, e.call_fn(COMMON, "Archive::flush_buffers", [ar]), "archive:write_failed", "flush_buffers"); model.flush()
         unwrap_ok(e, e.call_fn(COMMON, "Archive::close", [ar]), "archive:write_failed", "close")
+        if not conc:
+            img, exp = e.fs.files[PATH].data, spec_file(e, model)
+            e.prove(len(img) == len(exp), "archive:format", f"file has {len(img)} bytes, the format rules give {len(exp)}")
+            e.prove(e.eq_bytes(img, exp), "archive:format", "file bytes differ from the AGC container format (part framing / directory / footer length)")
         # ---------------- reopen
         rdc = Cell(e.call_fn(COMMON, "Archive::new_reader", []))
         rd = Ref(rdc)
